@@ -1607,7 +1607,10 @@ func (inv *Invoker) Acquire() {
 
 func (inv *Invoker) acquire(usePool bool) {
 	if !inv.isCompiled {
+		// a callee that is not a compiled function runs without a child VM
+		// (inv.vm may be nil when the caller has no VM)
 		inv.child = inv.vm
+		return
 	}
 	if inv.child != nil {
 		return
@@ -1636,7 +1639,7 @@ func (inv *Invoker) Invoke(args ...Object) (Object, error) {
 	if inv.child == nil {
 		inv.acquire(false)
 	}
-	if inv.child.Aborted() {
+	if inv.child != nil && inv.child.Aborted() {
 		return Undefined, ErrVMAborted
 	}
 	verifSync("invoke.checked", inv.child)
